@@ -228,7 +228,8 @@ def classify(fn: Fn, node: ast.AST, depth=0, seen=None) -> List[Role]:
                 return [("MESSAGE", fname, p)]
             if isinstance(p.func, ast.Attribute) and p.func.attr in ("append", "add", "extend", "insert"):
                 return [("STORE", text(p.func.value), p)]
-            if fname in ("Macro", "Macro.from_token"):
+            own_cls = fn.cls.name if getattr(fn, "cls", None) is not None else None
+            if fname in ("Macro", "Macro.from_token") or (own_cls == "Macro" and fname in ("cls", "cls.from_token", "self.from_token")):
                 return [("STORE", "preproc.macros", p)]
             if fname == "getattr":
                 return [("DISPATCH", None, p)]
